@@ -192,6 +192,11 @@ func mkDomain(specs ...scalarSpec) *Domain {
 		}
 		for _, s := range specs {
 			if s.match(x) {
+				if neg && s.integer {
+					// −x is not an order-reversing map on machine integers (−MinInt64 == MinInt64): a test
+					// written on −x says nothing exact about x and is left as an opaque condition
+					return "", false, false
+				}
 				return s.name, neg, true
 			}
 		}
